@@ -314,7 +314,12 @@ class Session:
                 self.outcomes.append("skip")
                 self.stats["skipped_ambiguous"] += 1
                 return
-            self.collapsed = True
+            # with two inputs the unchanged library handles the collapse
+            # consistently (one input remains) and everything is judged; with
+            # three or more it is the known finding D23
+            mx = m.mux()
+            if mx is not None and len(m.parents[mx]) >= 3:
+                self.collapsed = True
             self.stats["fault_fired:mux_inputs_collapsed"] += 1
         reason = self._must_reject(op)
         before_full = None
